@@ -33,6 +33,51 @@ pub enum Stack {
     BraidTls,
     /// stream::duplex pair -> DuplexStream -> Braid -> client/server Stream
     Duplex,
+    /// the server's protocol detection (ReadVersion, through the verif hook) fills the rewind
+    /// buffer from a stream that starts with `prefix_len` bytes of the HTTP/2 preface; the reader
+    /// then reads through the Rewind it returns
+    Sniffed,
+}
+
+const H2_PREFACE: &[u8] = b"PRI * HTTP/2.0\r\n\r\nSM\r\n\r\n";
+
+type SniffFut = Pin<Box<dyn std::future::Future<Output = io::Result<(bool, Rewind<TokioIo<net::SimStream>>)>>>>;
+
+/// Reader endpoint of the `Sniffed` stack: detection runs first (lazily, driven by the first
+/// read), everything after that goes through the rewound stream.
+struct SniffEnd {
+    pending: Option<SniffFut>,
+    inner: Option<HyperEnd<Rewind<TokioIo<net::SimStream>>>>,
+}
+
+impl SniffEnd {
+    async fn ready(&mut self) -> io::Result<&mut HyperEnd<Rewind<TokioIo<net::SimStream>>>> {
+        if self.inner.is_none() {
+            let fut = self.pending.as_mut().expect("detection future");
+            let (_h2, rewind) = poll_fn(|cx| fut.as_mut().poll(cx)).await?;
+            self.pending = None;
+            self.inner = Some(HyperEnd(rewind));
+        }
+        Ok(self.inner.as_mut().unwrap())
+    }
+}
+
+impl Endpoint for SniffEnd {
+    fn read<'a>(&'a mut self, cap: usize, prefill: usize) -> Pin<Box<dyn std::future::Future<Output = io::Result<Vec<u8>>> + 'a>> {
+        Box::pin(async move { self.ready().await?.read(cap, prefill).await })
+    }
+    fn write<'a>(&'a mut self, data: &'a [u8]) -> Pin<Box<dyn std::future::Future<Output = io::Result<usize>> + 'a>> {
+        Box::pin(async move { self.ready().await?.write(data).await })
+    }
+    fn write_vectored<'a>(&'a mut self, parts: &'a [&'a [u8]]) -> Pin<Box<dyn std::future::Future<Output = io::Result<usize>> + 'a>> {
+        Box::pin(async move { self.ready().await?.write_vectored(parts).await })
+    }
+    fn flush<'a>(&'a mut self) -> Pin<Box<dyn std::future::Future<Output = io::Result<()>> + 'a>> {
+        Box::pin(async move { self.ready().await?.flush().await })
+    }
+    fn shutdown<'a>(&'a mut self) -> Pin<Box<dyn std::future::Future<Output = io::Result<()>> + 'a>> {
+        Box::pin(async move { self.ready().await?.shutdown().await })
+    }
 }
 
 #[derive(Clone, Debug, Serialize, Deserialize)]
@@ -338,6 +383,7 @@ fn draw_case(r: &mut Rng, seed: u64) -> IoCase {
         (3, Stack::BraidPlain),
         (2, Stack::BraidTls),
         (3, Stack::Duplex),
+        (3, Stack::Sniffed),
     ]);
     let n_ops = r.range(0, 8) as usize;
     let mut writes = vec![];
@@ -383,7 +429,7 @@ fn draw_case(r: &mut Rng, seed: u64) -> IoCase {
         shutdown: r.chance(4, 5),
         read_caps,
         prefill: *r.weighted(&[(4, 0usize), (2, 1), (2, 13)]),
-        prefix_len: *r.pick(&[0usize, 1, 5, 23, 24, 24]),
+        prefix_len: *r.pick(&[0usize, 1, 3, 5, 14, 23, 24, 24]),
         fault,
         duplex_buf: *r.pick(&[1usize, 2, 64, 1024, 65536]),
         reverse_bytes: *r.weighted(&[(3, 0usize), (1, 1), (1, 300), (1, 5000)]),
@@ -405,10 +451,10 @@ impl Scenario for IoSim {
 
     fn info(&self) -> ScenarioInfo {
         ScenarioInfo {
-            rule: "writer script (write / write_vectored / flush / shutdown, sizes 0..20000) and reader script (buffer capacities 0..70000, pre-filled buffers) run concurrently over one adapter stack per case (TokioIo hyper-side, TokioIo there-and-back, Rewind with prefix 0..24, client/server braid Stream plain and TLS, duplex transport), SimNet draws chunking / Pending / virtual delays / pipe capacity and optional EOF/reset at a byte offset; bytes compared with a reference FIFO. Non-trivial: >=2 write ops or a fault; distinct = hash of (stack, io-mode class, op kinds and size classes, read-cap classes, fault kind).".into(),
+            rule: "writer script (write / write_vectored / flush / shutdown, sizes 0..20000) and reader script (buffer capacities 0..70000, pre-filled buffers) run concurrently over one adapter stack per case (TokioIo hyper-side, TokioIo there-and-back, Rewind with prefix 0..24, protocol detection + Rewind over a stream that starts with 0..24 bytes of the HTTP/2 preface, client/server braid Stream plain and TLS, duplex transport), SimNet draws chunking / Pending / virtual delays / pipe capacity and optional EOF/reset at a byte offset; bytes compared with a reference FIFO. Non-trivial: >=2 write ops or a fault; distinct = hash of (stack, io-mode class, op kinds and size classes, read-cap classes, fault kind).".into(),
             real: vec![
                 "bridge::io::TokioIo (both directions)",
-                "rewind::Rewind",
+                "rewind::Rewind", "server::conn::auto ReadVersion (protocol detection filling the rewind buffer, through the verif hook)",
                 "client::conn::Stream, server::conn::Stream, stream::tls::TlsBraid (both arms), client/server TlsStream",
                 "stream::duplex (pair, DuplexClient::connect, DuplexIncoming accept, DuplexStream), stream::core::Braid (duplex arm)",
                 "tokio-rustls / rustls (TLS arms)",
@@ -437,7 +483,11 @@ impl Scenario for IoSim {
         let rt = simrt::runtime();
         let fwd = std::cell::RefCell::new(Side::default());
         let back = std::cell::RefCell::new(Side::default());
-        let prefix: Vec<u8> = (0..case.prefix_len as u64).map(|i| pattern(i, 77)).collect();
+        let prefix: Vec<u8> = if case.stack == Stack::Sniffed {
+            H2_PREFACE[..case.prefix_len.min(H2_PREFACE.len())].to_vec()
+        } else {
+            (0..case.prefix_len as u64).map(|i| pattern(i, 77)).collect()
+        };
         let mut pipes: Vec<net::PipeRef> = vec![];
         let stall = std::panic::catch_unwind(std::panic::AssertUnwindSafe(|| rt.block_on(async {
             let (mut mode_fwd, mut mode_back) = (case.mode_fwd.clone(), case.mode_back.clone());
@@ -461,6 +511,10 @@ impl Scenario for IoSim {
                 Stack::Rewind => (
                     Box::new(HyperEnd(TokioIo::new(a))),
                     Box::new(HyperEnd(Rewind::new(TokioIo::new(b), prefix.clone()))),
+                ),
+                Stack::Sniffed => (
+                    Box::new(HyperEnd(TokioIo::new(a))),
+                    Box::new(SniffEnd { pending: Some(Box::pin(hyperdriver::verif_hooks::verif_read_version(TokioIo::new(b)))), inner: None }),
                 ),
                 Stack::BraidPlain => (
                     Box::new(TokioEnd(hyperdriver::client::conn::Stream::new(a))),
@@ -500,7 +554,7 @@ impl Scenario for IoSim {
                 Stack::BraidTls => (case.mode_back.cap / 2).saturating_sub(64),
                 _ => case.mode_back.cap / 2,
             };
-            let reverse_bytes = case.reverse_bytes.min(back_room);
+            let reverse_bytes = if case.stack == Stack::Sniffed { 0 } else { case.reverse_bytes.min(back_room) };
             let fwd_limit: usize = case
                 .writes
                 .iter()
@@ -517,7 +571,23 @@ impl Scenario for IoSim {
             // logical actors, so run "write then read" on each side concurrently with the other side.
             // An endpoint that returned an error is not used again (what hyper does as well).
             let side_a = async {
-                run_writer(wa.as_mut(), &case.writes, case.shutdown, 1, &fwd).await;
+                if case.stack == Stack::Sniffed {
+                    // the stream starts with (part of) the HTTP/2 preface, written like any other bytes
+                    let mut off = 0;
+                    while off < prefix.len() {
+                        match wa.write(&prefix[off..]).await {
+                            Ok(0) => break,
+                            Ok(k) => off += k,
+                            Err(e) => {
+                                fwd.borrow_mut().write_err = Some(e.kind().to_string());
+                                break;
+                            }
+                        }
+                    }
+                }
+                if fwd.borrow().write_err.is_none() {
+                    run_writer(wa.as_mut(), &case.writes, case.shutdown, 1, &fwd).await;
+                }
                 if reverse_bytes > 0 && fwd.borrow().write_err.is_none() {
                     run_reader(wa.as_mut(), &case.read_caps, 0, &back, None, reverse_bytes + 65536).await;
                 }
@@ -651,7 +721,7 @@ impl Scenario for IoSim {
             Self::viol(&mut out, "transfer_hangs", case.stack, format!("transfer did not finish: sent {} received {} eof {}", f.sent.len(), f.received.len(), f.eof_seen));
             return out;
         }
-        for (name, side, pre) in [("forward", &*f, if case.stack == Stack::Rewind { prefix.clone() } else { vec![] }), ("reverse", &*bk, vec![])] {
+        for (name, side, pre) in [("forward", &*f, if matches!(case.stack, Stack::Rewind | Stack::Sniffed) { prefix.clone() } else { vec![] }), ("reverse", &*bk, vec![])] {
             if let Some(e) = &side.oracle_err {
                 Self::viol(&mut out, "read_buffer_contract", case.stack, format!("{}: {}", name, e));
             }
